@@ -62,6 +62,9 @@ func (u *Unit) assumeTypeInvs(st *State) {
 		if t == nil {
 			continue
 		}
+		if u.pkg != nil && u.pkg.Types != nil && !reachesPkg(u.pkg.Types, ti.PkgPath, map[string]bool{}) {
+			continue // the unit's package cannot even name the type
+		}
 		if u.selfInvKey == key {
 			// inside a method of T the receiver's invariant may be broken temporarily; assumed at entry only
 			continue
@@ -90,4 +93,20 @@ func (u *Unit) checkTypeInvAlloc(ev *Ev, t types.Type, ref string) {
 		return
 	}
 	u.emit(ev.st, "typeinv@alloc "+shortKey(key), u.typeInvTerm(ev.st, u.eng.cs.TypeInvs[key], u.namedByKey(key), ref), "a freshly allocated object satisfies its object invariant")
+}
+
+func reachesPkg(p *types.Package, path string, seen map[string]bool) bool {
+	if p.Path() == path {
+		return true
+	}
+	if seen[p.Path()] {
+		return false
+	}
+	seen[p.Path()] = true
+	for _, imp := range p.Imports() {
+		if reachesPkg(imp, path, seen) {
+			return true
+		}
+	}
+	return false
 }
